@@ -34,7 +34,7 @@ TSV = {
     "c": "onset\tduration\tcode\n0.5\t1.0\t4\n3.0\t1.0\t5\n4.0\tn/a\t6\n",
 }
 FILES3 = [("sub-01/sub-01_task_go_events.tsv", "a"), ("sub-01/sub-01_task_stop_events.tsv", "b"),
-          ("sub-02/sub-02_task_go_events.tsv", "c")]
+          ("sub-02/EEG/sub-02_task_go_events.tsv", "c")]        # a directory name with capitals
 
 
 def make_tree(root, files):
@@ -235,10 +235,36 @@ def run_history(rec, bm_mod, cli, root, selection, hist):
                         model[rel] = content
             elif op[0] == "remodel":
                 args = [root, model_path, "-x", "derivatives", "-ns"] + (["-t", op[1]] if op[1] else [])
-                cli["remodel"].main(args)
-                for rel, content in backed.items():
-                    if op[1] is None or ("task_" + op[1]) in os.path.basename(rel):
-                        model[rel] = remodeled(content)
+                uncovered = sorted(r for r in model if r not in backed)
+                if uncovered:
+                    # a data file without a backed-up original: the run is refused and nothing is touched (it could not
+                    # "start from the backed-up originals")
+                    refused = False
+                    try:
+                        cli["remodel"].main(args)
+                    except (Exception, SystemExit):
+                        refused = True
+                    if not refused:
+                        rec.violation("C18:history:remodel:ran-on-files-without-backed-up-original", uncovered=uncovered, **where)
+                        return
+                    # the refused run may have stopped half way: a file with a backed-up original is as before, or its
+                    # original, or the remodeled original; a file without one is untouched
+                    now = {k: v.decode() for k, v in fsseam.tree_bytes(root).items() if not k.startswith("derivatives")}
+                    for rel in set(now) | set(model):
+                        allowed = {model.get(rel)}
+                        if rel in backed:
+                            allowed |= {backed[rel], remodeled(backed[rel])}
+                        if now.get(rel) not in allowed:
+                            rec.violation("C18:history:remodel:refused-run-left-unexpected-content:" +
+                                          ("backed-up" if rel in backed else "not-backed-up"), file=rel, content=now.get(rel),
+                                          **where)
+                            return
+                    model = {k: v for k, v in now.items()}
+                else:
+                    cli["remodel"].main(args)
+                    for rel, content in backed.items():
+                        if op[1] is None or ("task_" + op[1]) in os.path.basename(rel):
+                            model[rel] = remodeled(content)
         except BaseException as e:
             rec.violation(f"C18:history:{op[0]}-raises:{type(e).__name__}", error=repr(e)[:300], **where)
             return
@@ -267,7 +293,7 @@ def worker_hist(rec, shard, nshards, scratch, depth, seed):
     from hed.tools.remodeling.cli import run_remodel, run_remodel_restore
     cli = {"remodel": run_remodel, "restore": run_remodel_restore}
     cases = []
-    for selection, with_remodel in (((0, 1, 2), True), ((0, 2), False), ((1,), False)):
+    for selection, with_remodel in (((0, 1, 2), True), ((0, 2), True), ((1,), False)):
         ops = hist_ops(3, with_remodel)
         for d in range(1, depth + 1):
             if d < depth and depth > 1:
